@@ -191,10 +191,12 @@ class DocEngine:
                 # an I/O error in the middle of a lazy load
                 op["fault"] = {"site": rng.choice(["zip_read", "read_bytes", "zip_open_r"], "rfsite"), "k": 1, "errno": rng.choice(["EIO", "EACCES"], "rferr")}
         elif name == "edit":
-            op["kind"] = rng.choice(["para", "heading", "list", "table", "image", "meta_title", "meta_user", "meta_keyword", "style", "delete_last"] + (["numlist", "numlist", "foreign_named_range"] if self.prop == "C15" else []), "ekind")
+            op["kind"] = rng.choice(["para", "heading", "list", "table", "image", "meta_title", "meta_user", "meta_keyword", "style", "delete_last"] + (["numlist", "numlist", "foreign_named_range", "xml_prolog"] if self.prop == "C15" else []), "ekind")
             op["n"] = n
             if self.prop == "C15" and self._doc_type() == "spreadsheet" and rng.chance(0.25, "fnr?"):
                 op["kind"] = "foreign_named_range"
+            if self.prop == "C11" and "added_image_frame" in self.flags and rng.chance(0.3, "img_again"):
+                op["kind"] = "image"  # the same picture in one more frame
             subs = sorted(x for x in st.names() if "/" in x and x.rsplit("/", 1)[-1] in ("content.xml", "styles.xml") and not x.startswith("META-INF"))
             if subs and rng.chance(0.5, "subobj?"):
                 op["kind"] = "subobject"
@@ -683,6 +685,9 @@ class DocEngine:
         name = ds.SHORT[op["part"]]
         try:
             part = doc.get_part(op["part"])
+            if op["part"] == "meta" and op.get("n", 0) % 2:
+                part.set_generator(f"user generator {op['n']}")  # (state a Meta part keeps outside its tree: "the user chose a generator")
+                self.n_edits += 1
             a0 = part.serialize()
             st.touched.add(name)
             b = part.clone
@@ -700,6 +705,18 @@ class DocEngine:
             return [Violation("C10", "twin-unreadable", "clone_part", feats + ["at_birth"], type(e).__name__, str(e))]
         if xmlref.c14n(b0) != xmlref.c14n(a0):
             return [Violation("C10", "clone-differs-at-birth", "clone_part", feats, None, f"serialisation of the XmlPart clone differs from the original ({len(b0)} vs {len(a0)} bytes)")]
+        # indistinguishable when taken: the same call on both gives the same answer
+        if op["part"] == "meta":
+            try:
+                part.set_generator_default()
+                b.set_generator_default()
+                ga, gb = part.get_generator(), b.get_generator()
+            except Exception as e:
+                return [Violation("C10", "twin-unreadable", "clone_part", feats + ["same_call_on_both"], type(e).__name__, str(e))]
+            if ga != gb:
+                return [Violation("C10", "clone-differs-at-birth", "clone_part", feats + ["same_call_on_both"], None,
+                                  f"set_generator_default() then get_generator(): the original answers {ga!r}, its clone {gb!r}")]
+            a0 = part.serialize()
         # edit the clone: the original must not notice; then the reverse
         try:
             b.root.append(Element.from_tag(f'<text:p xmlns:text="urn:oasis:names:tc:opendocument:xmlns:text:1.0">clone edit {op["n"]}</text:p>'))
@@ -841,6 +858,18 @@ class DocEngine:
                 doc.set_part("content.xml", data)
                 st.set_part("content.xml", data)
                 return None
+            if kind == "xml_prolog":
+                # parts as another producer writes them: a comment before, a processing instruction after the
+                # root element of content.xml / styles.xml (put in at the XML level, as if read from a file)
+                for pn in ("content.xml", "styles.xml")[: 1 + n % 2]:
+                    root = etree.fromstring(doc.get_part(pn).serialize())
+                    if root.getprevious() is None:
+                        root.addprevious(etree.Comment(f" written by sim {n} "))
+                        root.addnext(etree.ProcessingInstruction("sim-trailer", f"n={n}"))
+                    data = etree.tostring(root.getroottree(), xml_declaration=True, encoding="UTF-8")
+                    doc.set_part(pn, data)
+                    st.set_part(pn, data)
+                return None
             if kind == "numlist":
                 # a numbered list whose numbering comes from styles of this very document
                 from odfdo import Element as _E, ListItem as _LI
@@ -931,6 +960,9 @@ class DocEngine:
         if res == "content.xml+image":
             self._model_add_file_result("Pictures/", IMG1, None)
             st.touched.add("content.xml")
+            if "added_image_frame" in self.flags:
+                self.flags.add("same_picture_in_two_frames")
+            self.flags.add("added_image_frame")
         elif res is not None:
             st.touched.add(res)
         return []
@@ -1189,6 +1221,12 @@ class DocEngine:
                     if len(gels) == len(wels):
                         extra = self._leak_site(gels[i], wels[i], None)
                 return Violation("C11", "text-changed", "save_set", feats + extra, None, f"paragraph #{i}: flat xml {got[i] if i < len(got) else None!r} vs plain zip {want[i] if i < len(want) else None!r}")
+            # every image stays where it was (embedded or not): same number of draw:image per part
+            IMG_ = xmlref.q("draw:image")
+            n_ref = sum(1 for n in ("styles.xml", "content.xml") if n in ref_roots for _ in ref_roots[n].iter(IMG_))
+            n_flat = sum(1 for _ in flat.iter(IMG_))
+            if n_ref != n_flat:
+                return Violation("C11", "structure-changed", "save_set", feats + ["images"], None, f"the parts hold {n_ref} draw:image elements, the flat document {n_flat}")
             wl = []
             for n in ("meta.xml", "settings.xml", "styles.xml", "content.xml"):
                 if n in ref_roots:
